@@ -33,6 +33,10 @@ func CheckC10(h *History, accept func(matcher string, d *Dgram, fam string) bool
 		if c.ErrKind != "ok" {
 			continue
 		}
+		if c.Resp.Damaged {
+			add("damaged-message", "call %d returned a message with nonce %d whose trailer is not that of the injected datagram (cut short or overwritten after it arrived)", c.ID, c.Resp.Nonce)
+			continue
+		}
 		d := h.Dgrams[c.Resp.Nonce]
 		if d == nil {
 			add("unknown-datagram", "call %d returned a message that was never injected (nonce %d)", c.ID, c.Resp.Nonce)
